@@ -696,3 +696,96 @@ Proof.
 Qed.
 
 (* the entry function does receive refused bytes: see props/C17.v (witness) *)
+
+(* ---- boolean forms of the hypotheses (for witnesses) ------------------------------------------------------ *)
+Definition refused_bool (i : bytes) : bool :=
+  (INPUT_LIMIT <? len i) || ((0 <? len i) && negb (valid_input_b i)).
+Lemma refused_bool_spec : forall i, refused_bool i = true -> refused i.
+Proof.
+  intros i H. unfold refused_bool in H. apply orb_true_iff in H as [H|H].
+  - left. apply N.ltb_lt. exact H.
+  - apply andb_true_iff in H as [H1 H2]. right. split; [apply N.ltb_lt; exact H1|].
+    destruct (valid_input_b i); [discriminate|reflexivity].
+Qed.
+Lemma refused_bool_complete : forall i, refused i -> refused_bool i = true.
+Proof.
+  intros i [H|[H1 H2]]; unfold refused_bool.
+  - apply orb_true_iff. left. apply N.ltb_lt. exact H.
+  - apply orb_true_iff. right. rewrite H2. apply andb_true_iff. split; [apply N.ltb_lt; exact H1|reflexivity].
+Qed.
+
+Definition settled_b (e : engine) : bool :=
+  negb (e_execd e) || (negb (getf (v_st (e_v e)) FLAG_DIRTY) && negb (e_exiting e)).
+Lemma settled_b_spec : forall e, settled_b e = true -> settled e.
+Proof.
+  intros e H Hx. unfold settled_b in H. rewrite Hx in H. cbn [negb orb] in H.
+  apply andb_true_iff in H as [H1 H2]. split; [destruct (getf _ _)|destruct (e_exiting e)]; try discriminate; reflexivity.
+Qed.
+Definition delivered_b (e : engine) : bool :=
+  negb (e_execd e) || (negb (getf (v_st (e_v e)) FLAG_DIRTY) && negb (e_exiting e) && match e_exit e with [] => true | _ => false end).
+Lemma delivered_b_spec : forall e, delivered_b e = true -> delivered e.
+Proof.
+  intros e H. unfold delivered_b in H. destruct (e_execd e) eqn:Hx; [|left; exact Hx]. cbn [negb orb] in H.
+  apply andb_true_iff in H as [H H3]. apply andb_true_iff in H as [H1 H2]. right.
+  split; [destruct (getf _ _); [discriminate|reflexivity]|]. split; [destruct (e_exiting e); [discriminate|reflexivity]|].
+  destruct (e_exit e); [reflexivity|discriminate].
+Qed.
+
+(* C17, whole histories, with the decidable hypotheses *)
+Lemma as_if_never_sent_long_b : forall fuel rs c e h1 bad h2,
+  refused_bool bad = true ->
+  e_initd (fst (serve_long fuel rs c e h1)) = true -> settled_b (fst (serve_long fuel rs c e h1)) = true ->
+  exists r1 rb r2,
+    snd (serve_long fuel rs c e (h1 ++ [bad] ++ h2)) = r1 ++ [rb] ++ r2
+    /\ snd (serve_long fuel rs c e (h1 ++ h2)) = r1 ++ r2
+    /\ List.length r1 = List.length h1
+    /\ r_out rb = [] /\ r_exec rb = SErr EGen None
+    /\ (h2 <> [] -> fst (serve_long fuel rs c e (h1 ++ [bad] ++ h2)) = fst (serve_long fuel rs c e (h1 ++ h2))).
+Proof.
+  intros fuel rs c e h1 bad h2 Hr Hi Hs.
+  pose proof (as_if_never_sent_long fuel rs c e h1 bad h2 (refused_bool_spec _ Hr)) as H.
+  assert (Hlen : forall h e0, List.length (snd (serve_long fuel rs c e0 h)) = List.length h).
+  { induction h as [|i h IH]; intros e0; [reflexivity|]. cbn [serve_long].
+    destruct (request_long fuel rs c e0 i) as [e1 r]. specialize (IH e1).
+    destruct (serve_long fuel rs c e1 h) as [e2 rr]. cbn [snd List.length] in *. congruence. }
+  pose proof (Hlen h1 e) as Hl1.
+  destruct (serve_long fuel rs c e h1) as [e1 r1]. cbn [fst snd] in *.
+  specialize (H Hi (settled_b_spec _ Hs)).
+  destruct (request_long fuel rs c e1 bad) as [eb rb].
+  destruct H as (A1 & A2 & A3 & A4 & A5 & A6 & A7).
+  exists r1, rb, (snd (serve_long fuel rs c e1 h2)).
+  rewrite A1, A2. cbn [fst snd]. rewrite A3.
+  split; [reflexivity|]. split; [reflexivity|]. split; [exact Hl1|]. split; [exact A6|]. split; [exact A7|exact A4].
+Qed.
+
+Lemma serve_pers_length : forall fuel rs c h p, List.length (snd (serve_pers fuel rs c p h)) = List.length h.
+Proof.
+  induction h as [|i h IH]; intros p; [reflexivity|]. cbn [serve_pers].
+  destruct (request_persisted fuel rs c p i) as [p1 r]. specialize (IH p1).
+  destruct (serve_pers fuel rs c p1 h) as [p2 rr]. cbn [snd List.length] in *. congruence.
+Qed.
+
+Lemma pw_ok_initial : forall c w lg t, pw_ok c (mkPw None w lg t).
+Proof. intros. unfold pw_ok. cbn [pw_store sess fst]. apply fresh_state_input. Qed.
+
+Lemma as_if_never_sent_pers_b : forall fuel rs c h1 bad h2,
+  c_first c = None -> refused_bool bad = true ->
+  exists r1 rb r2,
+    snd (serve_pers fuel rs c (mkPw None [] [] false) (h1 ++ [bad] ++ h2)) = r1 ++ [rb] ++ r2
+    /\ snd (serve_pers fuel rs c (mkPw None [] [] false) (h1 ++ h2)) = r1 ++ r2
+    /\ List.length r1 = List.length h1
+    /\ r_out rb = [] /\ r_exec rb = SErr EGen None /\ r_flush rb = FErr EFlushNoExec
+    /\ pw_eqv c (fst (serve_pers fuel rs c (mkPw None [] [] false) (h1 ++ [bad] ++ h2)))
+                (fst (serve_pers fuel rs c (mkPw None [] [] false) (h1 ++ h2))).
+Proof.
+  intros fuel rs c h1 bad h2 Hf Hr.
+  pose proof (as_if_never_sent_pers fuel rs c (mkPw None [] [] false) h1 bad h2 Hf (pw_ok_initial c [] [] false)
+                (refused_bool_spec _ Hr)) as H.
+  pose proof (serve_pers_length fuel rs c h1 (mkPw None [] [] false)) as Hl1.
+  destruct (serve_pers fuel rs c (mkPw None [] [] false) h1) as [p1 r1]. cbn [snd] in Hl1.
+  destruct (request_persisted fuel rs c p1 bad) as [pb rb].
+  destruct H as (A1 & A2 & A3 & A4 & A5 & A6 & A7 & A8).
+  exists r1, rb, (snd (serve_pers fuel rs c p1 h2)).
+  rewrite A1, A2. cbn [fst snd]. rewrite A3.
+  split; [reflexivity|]. split; [reflexivity|]. split; [exact Hl1|]. split; [exact A6|]. split; [exact A7|]. split; [exact A8|exact A4].
+Qed.
